@@ -1773,6 +1773,11 @@ func (t *http2Client) reader(errCh chan<- error) {
 			t.handlePing(frame)
 		case *http2.GoAwayFrame:
 			errClose = t.handleGoAway(frame)
+			if errClose != nil {
+				// A GOAWAY that is a connection error (e.g. an even or an
+				// increasing last-stream-id) must close the transport.
+				return
+			}
 		case *http2.WindowUpdateFrame:
 			t.handleWindowUpdate(frame)
 		default:
